@@ -142,6 +142,7 @@ fn trace(mon: &mut Monitor, args: &Args) {
         let len = 2 + pick.idx(7);
         let mut s = Src::new(sd, Mode::Ordinary);
         s.pool_prob = 0.6;
+        s.index_range = 4;
         for step in 0..len {
             let e = &reg[pick.idx(reg.len())];
             let o = catch_unwind(AssertUnwindSafe(|| (e.call)(&mut s))).map_err(|_| ());
@@ -226,7 +227,9 @@ pub fn lane_exact(full: &str) -> bool {
             return true; // unary minus, indexing
         }
         if t.len() == 3 {
-            return match t[1] { "+" | "-" | "==" | "!=" => true, "*" | "/" => t[0] == "f32" || t[2] == "f32", _ => false };
+            let (l, r) = (t[0].trim_start_matches('&'), t[2].trim_start_matches('&'));
+            let o = if t[1] == "==" || t[1] == "!=" { t[1] } else { t[1].trim_end_matches('=') };
+            return match o { "+" | "-" | "==" | "!=" => true, "*" | "/" => l == "f32" || r == "f32" || l == "f64" || r == "f64", _ => false };
         }
         return false;
     }
